@@ -82,6 +82,7 @@ int gblock;                          /* ghost: the block number the part was con
 //@end
 /* LIMIT: the element count of a broadcast is an `int`: rows*cols of a block must fit (block dimension <= 46340); the model stops at 2^15-1 */
 #define HM_MAXDIM 32767L
+#define HM_DIM_OK(n) (((n) & ~HM_MAXDIM) == 0)      /* 0 <= n <= HM_MAXDIM, written as a bit mask (keeps the products of two dimensions small for the solver) */
 /* HamiltonianPart::getSize() = S.getBlockSize(Block) -- callee contract (hampart.c h_HP_getSize; S is computed here) */
 static inline unsigned long HamiltonianPart_getSize(struct HamiltonianPart *p) { return (unsigned long)p->gsize; }
 
@@ -119,7 +120,8 @@ static inline PartPtr *PartVec_at(PartVec *v, unsigned long i)
     /* another element (or the skeleton has worked on the parts since): arbitrary contents (an uninitialised local is nondeterministic) ... */
     struct HamiltonianPart fresh_part;
     /* ... subject to the PART INVARIANT instantiated at index i (ASSUMED = the quantified pre-condition of the caller, resp. the contract of the skeleton) */
-    __CPROVER_assume(1 <= fresh_part.gsize && fresh_part.gsize <= HM_MAXDIM && fresh_part.gblock == (int)i && fresh_part.Status <= Computed);
+    __CPROVER_assume(1 <= fresh_part.gsize && HM_DIM_OK(fresh_part.gsize) && fresh_part.gblock == (int)i && fresh_part.Status <= Computed);
+    __CPROVER_assume(fresh_part.H.n_bcast == 0 && fresh_part.Eigenvalues.n_bcast == 0);      /* ghost counters of this call */
     if (g_what == Computed) {
       /* a prepared Hamiltonian: every part holds its block matrix */
       __CPROVER_assume(fresh_part.Status >= Prepared && fresh_part.H.rows == fresh_part.gsize && fresh_part.H.cols == fresh_part.gsize);
@@ -242,7 +244,7 @@ static inline void Hamiltonian_computeGroundEnergy(struct Hamiltonian *self);
    0 <= comm->rank_ && comm->rank_ < comm->size_ && 0 <= g_owner && g_owner < comm->size_ && \
    g_n_bcast == 0 && g_n_barrier == 0 && g_n_run == 0 && g_n_cge == 0 && g_phase == 0 && !VERIF_thrown)
 /* PART INVARIANT of a prepared Hamiltonian at the ghost part */
-#define GP_PREPARED(self) (GP(self)->Status >= Prepared && GP(self)->Status <= Computed && 1 <= GP(self)->gsize && GP(self)->gsize <= HM_MAXDIM && \
+#define GP_PREPARED(self) (GP(self)->Status >= Prepared && GP(self)->Status <= Computed && 1 <= GP(self)->gsize && HM_DIM_OK(GP(self)->gsize) && \
    GP(self)->H.rows == GP(self)->gsize && GP(self)->H.cols == GP(self)->gsize && (GP(self)->Status < Computed || GP(self)->Eigenvalues.size == GP(self)->gsize))
 
 //@function Pomerol::Hamiltonian::compute(boost::mpi::communicator const&) as Hamiltonian_compute
@@ -274,7 +276,7 @@ __CPROVER_ensures((__CPROVER_old(self->Status) < Computed && HAS_GP(self)) ==> (
                   GP(self)->H.n_resize == 0 && GP(self)->Eigenvalues.n_resize == (g_rank == g_owner ? 0UL : 1UL)))
 //@loop 1
 __CPROVER_assigns(i, skel.parts.g, skel.parts.scratch, skel.parts.g_stores, g_curp, self->parts.otherp, self->parts.other, self->parts.other_idx, self->parts.other_phase)
-__CPROVER_loop_invariant(self->parts.other_idx < (long)i)
+__CPROVER_loop_invariant(self->parts.other_idx < (long)i && self->parts.other_phase == 0)
 __CPROVER_loop_invariant(i <= (unsigned long)self->parts.size && skel.parts.size == (unsigned long)self->parts.size && skel.parts.gidx == self->parts.gidx)
 __CPROVER_loop_invariant(skel.parts.g_stores == ((HAS_GP(self) && (long)i > self->parts.gidx) ? 1UL : 0UL))
 __CPROVER_loop_invariant(!(HAS_GP(self) && (long)i > self->parts.gidx) || (skel.parts.g.x == GP(self) && skel.parts.g.complexity == (int)GP(self)->gsize))
@@ -285,7 +287,7 @@ __CPROVER_loop_invariant(self->parts.other_idx < (long)p || self->parts.other_ph
 __CPROVER_loop_invariant(p <= (unsigned long)self->parts.size && !VERIF_thrown && g_n_bcast == 2UL * p)
 __CPROVER_loop_invariant(job_map.njobs == self->parts.size && job_map.gkey == self->parts.gidx && job_map.gval == g_owner && rank == g_rank)
 __CPROVER_loop_invariant(!HAS_GP(self) || (GP(self)->gsize == __CPROVER_loop_entry(GP(self)->gsize) && GP(self)->H.rows == GP(self)->gsize && GP(self)->H.cols == GP(self)->gsize &&
-                         1 <= GP(self)->gsize && GP(self)->gsize <= HM_MAXDIM && GP(self)->H.n_resize == 0))
+                         1 <= GP(self)->gsize && HM_DIM_OK(GP(self)->gsize) && GP(self)->H.n_resize == 0))
 __CPROVER_loop_invariant(!HAS_GP(self) || ((long)p <= self->parts.gidx
       ? (GP(self)->H.n_bcast == 0 && GP(self)->Eigenvalues.n_bcast == 0 && GP(self)->Eigenvalues.n_resize == 0 && GP(self)->Status == __CPROVER_loop_entry(GP(self)->Status) &&
          (g_rank != g_owner || (GP(self)->Status == Computed && GP(self)->Eigenvalues.size == GP(self)->gsize)))
